@@ -1079,3 +1079,175 @@ Proof.
       { rewrite map_snd_edges. eapply Str_all_declared; eauto. eapply nth_error_In; eauto. }
       destruct (i2_set _ _ _ I2 k h Hk Hh) as (p & Hp & Hin). eauto 8.
 Qed.
+
+(* ---------- extension: intents that can fail, reference totals ---------- *)
+Lemma run_intent_inr : forall per tot v t',
+  run_intent per tot v = inr t' <-> intent_ok per v /\ t' = sat_add tot (v_refs v).
+Proof.
+  intros per tot v t'. unfold run_intent, intent_ok.
+  destruct (N.ltb_spec per (v_refs v)).
+  - split; [discriminate|]. intros ((Hle & _) & _). lia.
+  - destruct (v_fail v) as [c|].
+    + split; [discriminate|]. intros ((_ & Hf) & _). discriminate.
+    + split; [intro E; inversion E; auto|]. intros (_ & ->). reflexivity.
+Qed.
+Lemma run_subs_inr : forall per hs vs i tot t', length hs = length vs ->
+  (run_subs per i hs vs tot = inr t' <->
+   Forall (intent_ok per) vs /\ t' = fold_left sat_add (map v_refs vs) tot).
+Proof.
+  intros per hs; induction hs as [|h hr IH]; intros [|v vr] i tot t' Hl; cbn in Hl; try discriminate.
+  - cbn. split; [intro E; inversion E; split; auto|intros (_ & ->); reflexivity].
+  - cbn [run_subs map fold_left].
+    destruct (run_intent per tot v) as [e|t1] eqn:E1.
+    + split; [discriminate|]. intros (F & _). inversion F as [|? ? Hv Fr]; subst.
+      assert (run_intent per tot v = inr (sat_add tot (v_refs v))) by (apply run_intent_inr; auto).
+      congruence.
+    + apply run_intent_inr in E1. destruct E1 as (Hv & ->).
+      rewrite (IH vr (S i) _ t') by lia. split.
+      * intros (F & ->). split; auto.
+      * intros (F & ->). inversion F; subst. split; auto.
+Qed.
+(* the first failing subintent (list order) is the one reported, with its index and hash *)
+Lemma run_subs_inl : forall per hs vs i tot l e,
+  run_subs per i hs vs tot = inl (l, e) ->
+  exists k h v, nth_error hs k = Some h /\ nth_error vs k = Some v /\ l = FNonRoot (i + k) h /\
+                Forall (intent_ok per) (firstn k vs) /\
+                run_intent per (fold_left sat_add (map v_refs (firstn k vs)) tot) v = inl e.
+Proof.
+  intros per hs; induction hs as [|h hr IH]; intros [|v vr] i tot l e H; cbn in H; try discriminate.
+  destruct (run_intent per tot v) as [e1|t1] eqn:E1.
+  - inversion H; subst. exists O, h, v. rewrite Nat.add_0_r. cbn. repeat split; auto.
+  - destruct (IH vr (S i) t1 l e H) as (k & h' & v' & Hh & Hv & -> & F & R).
+    apply run_intent_inr in E1. destruct E1 as (Hok & ->).
+    exists (S k), h', v'. cbn [nth_error firstn map fold_left]. repeat split; auto.
+    + f_equal. lia.
+Qed.
+Lemma sat_add_le : forall a b, a <= USIZE_MAX -> sat_add a b <= USIZE_MAX.
+Proof. intros a b H. unfold sat_add. lia. Qed.
+Lemma fold_sat_le : forall l a, a <= USIZE_MAX -> fold_left sat_add l a <= USIZE_MAX.
+Proof. induction l as [|x r IH]; intros a H; cbn; auto. apply IH. apply sat_add_le; auto. Qed.
+Lemma fold_sat_min : forall l a, a <= USIZE_MAX ->
+  fold_left sat_add l a = N.min (a + fold_right N.add 0 l) USIZE_MAX.
+Proof.
+  induction l as [|x r IH]; intros a H; cbn [fold_left fold_right].
+  - lia.
+  - rewrite IH by (apply sat_add_le; auto). unfold sat_add. lia.
+Qed.
+
+Theorem full_accept_iff : forall f maxd,
+  root_not_placeholder (f_tree f) -> root_fresh (f_tree f) -> effective_max (f_tree f) = Some maxd ->
+  length (f_sub_vs f) = length (t_subs (f_tree f)) ->
+  (full_accepted f <->
+   WellFormed (f_tree f) maxd /\
+   Forall (intent_ok (f_max_references_per_intent f)) (f_root_v f :: f_sub_vs f) /\
+   total_references f <= f_max_total_references f).
+Proof.
+  intros f maxd Hroot Hf Hmax Hlen.
+  pose proof (accept_iff_tree (f_tree f) maxd Hroot Hf Hmax) as HT.
+  unfold accepted, validate, validate_with in HT. fold (relationships (f_tree f)) in HT.
+  unfold full_accepted, validate_full, validate_full_with, total_references. fold (relationships (f_tree f)).
+  assert (Hl : length (hashes_of (f_tree f)) = length (f_sub_vs f)) by (unfold hashes_of; rewrite map_length; lia).
+  destruct (relationships (f_tree f)) as [e|[[[rootch ps] ds] chs]] eqn:HeqRel0.
+  - pose proof (relationships_spec (f_tree f) maxd Hroot Hmax) as HR.
+    rewrite HeqRel0 in HR. destruct HR as ((x & l & ->) & _). split.
+    + intros (r & p & d & c & E). discriminate.
+    + intros (W & _). apply HT in W. destruct W as (r & p & d & c & E). discriminate.
+  - cbn [map fold_left].
+    destruct (run_intent (f_max_references_per_intent f) 0 (f_root_v f)) as [e|t1] eqn:E1.
+    + split; [intros (r & p & d & c & E); discriminate|].
+      intros (_ & F & _). inversion F as [|? ? Hv Fr]; subst.
+      assert (run_intent (f_max_references_per_intent f) 0 (f_root_v f) = inr (sat_add 0 (v_refs (f_root_v f))))
+        by (apply run_intent_inr; auto). congruence.
+    + apply run_intent_inr in E1. destruct E1 as (Hrv & ->).
+      destruct (run_subs (f_max_references_per_intent f) 0 (hashes_of (f_tree f)) (f_sub_vs f)
+                  (sat_add 0 (v_refs (f_root_v f)))) as [[l e]|total] eqn:E2.
+      * split; [intros (r & p & d & c & E); discriminate|].
+        intros (_ & F & _). inversion F as [|? ? _ Fr]; subst.
+        assert (run_subs (f_max_references_per_intent f) 0 (hashes_of (f_tree f)) (f_sub_vs f)
+                  (sat_add 0 (v_refs (f_root_v f))) = inr (fold_left sat_add (map v_refs (f_sub_vs f)) (sat_add 0 (v_refs (f_root_v f)))))
+          by (apply run_subs_inr; auto). congruence.
+      * apply (run_subs_inr _ _ _ _ _ _ Hl) in E2. destruct E2 as (Fs & ->).
+        destruct (N.ltb_spec (f_max_total_references f)
+                    (fold_left sat_add (map v_refs (f_sub_vs f)) (sat_add 0 (v_refs (f_root_v f))))).
+        -- split; [intros (r & p & d & c & E); discriminate|]. intros (_ & _ & Hle). lia.
+        -- destruct (yield_check (yield_summaries (f_tree f)) (hashes_of (f_tree f)) ps 0) as [e|].
+           ++ split.
+              ** intros (r & p & d & c & E). inversion E as [E']. split; [apply (proj1 HT); rewrite E'; eauto 6|].
+                 split; [constructor; auto|lia].
+              ** intros (W & _). apply HT in W. destruct W as (r & p & d & c & E). exists r, p, d, c. rewrite E. reflexivity.
+           ++ split.
+              ** intros _. split; [apply HT; eauto 6|]. split; [constructor; auto|lia].
+              ** intros _. eauto 6.
+Qed.
+
+(* whatever the intents do, a structure error found by validate_intent_relationships comes first *)
+Theorem full_structure_first : forall f e,
+  relationships (f_tree f) = inl e -> validate_full f = FStructure e.
+Proof.
+  intros f e H. unfold validate_full, validate_full_with. fold (relationships (f_tree f)). rewrite H. reflexivity.
+Qed.
+(* with passing relationships: the root's failure is reported at the root; otherwise the first
+   failing subintent in list order, at its index; then the total; only then the yield counts *)
+Theorem full_first_failure : forall f rel,
+  relationships (f_tree f) = inr rel ->
+  (forall e, run_intent (f_max_references_per_intent f) 0 (f_root_v f) = inl e ->
+             validate_full f = FIntent FRoot e) /\
+  (forall t1 l e, run_intent (f_max_references_per_intent f) 0 (f_root_v f) = inr t1 ->
+             run_subs (f_max_references_per_intent f) 0 (hashes_of (f_tree f)) (f_sub_vs f) t1 = inl (l, e) ->
+             validate_full f = FIntent l e /\
+             exists k h v, nth_error (hashes_of (f_tree f)) k = Some h /\ nth_error (f_sub_vs f) k = Some v /\
+                           l = FNonRoot k h /\ Forall (intent_ok (f_max_references_per_intent f)) (firstn k (f_sub_vs f)) /\
+                           ~ intent_ok (f_max_references_per_intent f) v) /\
+  (Forall (intent_ok (f_max_references_per_intent f)) (f_root_v f :: f_sub_vs f) ->
+   length (f_sub_vs f) = length (t_subs (f_tree f)) ->
+   f_max_total_references f < total_references f ->
+   validate_full f = FIntent FAcross (TooManyReferences (total_references f) (f_max_total_references f))).
+Proof.
+  intros f [[[rootch ps] ds] chs] HR.
+  unfold validate_full, validate_full_with. fold (relationships (f_tree f)). rewrite HR. split; [|split].
+  - intros e E. rewrite E. reflexivity.
+  - intros t1 l e E1 E2. rewrite E1, E2. split; [reflexivity|].
+    destruct (run_subs_inl _ _ _ _ _ _ _ E2) as (k & h & v & Hh & Hv & -> & F & R).
+    exists k, h, v. repeat split; auto. intro Hok.
+    assert (X : run_intent (f_max_references_per_intent f)
+              (fold_left sat_add (map v_refs (firstn k (f_sub_vs f))) t1) v
+            = inr (sat_add (fold_left sat_add (map v_refs (firstn k (f_sub_vs f))) t1) (v_refs v)))
+      by (apply run_intent_inr; auto). congruence.
+  - intros F Hlen Hgt. inversion F as [|? ? Hrv Fs]; subst.
+    assert (Hl : length (hashes_of (f_tree f)) = length (f_sub_vs f)) by (unfold hashes_of; rewrite map_length; lia).
+    assert (E1 : run_intent (f_max_references_per_intent f) 0 (f_root_v f) = inr (sat_add 0 (v_refs (f_root_v f))))
+      by (apply run_intent_inr; auto).
+    rewrite E1.
+    assert (E2 : run_subs (f_max_references_per_intent f) 0 (hashes_of (f_tree f)) (f_sub_vs f) (sat_add 0 (v_refs (f_root_v f)))
+                 = inr (fold_left sat_add (map v_refs (f_sub_vs f)) (sat_add 0 (v_refs (f_root_v f)))))
+      by (apply run_subs_inr; auto).
+    rewrite E2. unfold total_references in *. cbn [map fold_left] in Hgt.
+    destruct (N.ltb_spec (f_max_total_references f)
+                (fold_left sat_add (map v_refs (f_sub_vs f)) (sat_add 0 (v_refs (f_root_v f))))); [reflexivity|lia].
+Qed.
+(* the reference total is the saturating sum: min(sum, usize::MAX) *)
+Theorem total_references_saturating : forall f,
+  total_references f = N.min (fold_right N.add 0 (map v_refs (f_root_v f :: f_sub_vs f))) USIZE_MAX.
+Proof. intro f. unfold total_references. rewrite fold_sat_min by (unfold USIZE_MAX; lia). reflexivity. Qed.
+(* all intents pass and the total is within its limit: the verdict is the structure verdict of the base model *)
+Theorem full_refines_structure : forall f,
+  Forall (intent_ok (f_max_references_per_intent f)) (f_root_v f :: f_sub_vs f) ->
+  length (f_sub_vs f) = length (t_subs (f_tree f)) ->
+  total_references f <= f_max_total_references f ->
+  validate_full f = FStructure (validate (f_tree f)).
+Proof.
+  intros f F Hlen Hle. inversion F as [|? ? Hrv Fs]; subst.
+  assert (Hl : length (hashes_of (f_tree f)) = length (f_sub_vs f)) by (unfold hashes_of; rewrite map_length; lia).
+  unfold validate_full, validate_full_with, validate, validate_with.
+  destruct (relationships_with (length (hashes_of (f_tree f))) (f_tree f)) as [e|[[[rootch ps] ds] chs]]; [reflexivity|].
+  assert (E1 : run_intent (f_max_references_per_intent f) 0 (f_root_v f) = inr (sat_add 0 (v_refs (f_root_v f))))
+    by (apply run_intent_inr; auto).
+  rewrite E1.
+  assert (E2 : run_subs (f_max_references_per_intent f) 0 (hashes_of (f_tree f)) (f_sub_vs f) (sat_add 0 (v_refs (f_root_v f)))
+               = inr (fold_left sat_add (map v_refs (f_sub_vs f)) (sat_add 0 (v_refs (f_root_v f)))))
+    by (apply run_subs_inr; auto).
+  rewrite E2. unfold total_references in Hle. cbn [map fold_left] in Hle.
+  destruct (N.ltb_spec (f_max_total_references f)
+              (fold_left sat_add (map v_refs (f_sub_vs f)) (sat_add 0 (v_refs (f_root_v f))))); [lia|].
+  destruct (yield_check (yield_summaries (f_tree f)) (hashes_of (f_tree f)) ps 0); reflexivity.
+Qed.
